@@ -132,8 +132,15 @@ inline constexpr void convert_type_fundamental_or_array(T_To& to,
   {
     // Explicitly using size to check for element type as we may be going across
     // different types of the same width such as void* and uintptr_t
+    // Same size and signedness is not enough for a verbatim copy: bool and
+    // unsigned char (or float and an integer type) agree in both, but do not
+    // have the same values
     if constexpr (sizeof(T_To_El) == sizeof(T_From_El) &&
-                  is_signed_v<T_To_El> == is_signed_v<T_From_El>) {
+                  is_signed_v<T_To_El> == is_signed_v<T_From_El> &&
+                  is_same_v<remove_cv_t<T_To_El>, bool> ==
+                    is_same_v<remove_cv_t<T_From_El>, bool> &&
+                  is_floating_point_v<T_To_El> ==
+                    is_floating_point_v<T_From_El>) {
       // Sanity check - this should definitely be true
       static_assert(sizeof(T_From_C) == sizeof(T_To_C));
       std::memcpy(&to, &from, sizeof(T_To_C));
